@@ -1430,6 +1430,19 @@ fn parked_history(cs: &mut Cs, it: &mut Interp, st: &mut Stats) -> R {
         let (sf, sb) = it.selection();
         match sf {
             None => {
+                // calls that are REJECTED (nothing selected): a complete history may contain
+                // them; they must leave the ids and the module alone
+                if !calm && cs.below(8) == 0 {
+                    let mm = match cs.below(4) {
+                        0 => pick(cs, &p.term),
+                        1 => method("end_function"),
+                        2 => method("function_parameter"),
+                        _ => pick(cs, &p.block),
+                    };
+                    it.call(cs, mm)?;
+                    rejected += 1;
+                    continue;
+                }
                 let unfinished: Vec<usize> = fs.iter().enumerate().filter(|(_, f)| !f.done).map(|(i, _)| i).collect();
                 if fs.len() < nf && (unfinished.is_empty() || cs.bool()) {
                     it.call(cs, method("begin_function"))?;
@@ -1453,18 +1466,6 @@ fn parked_history(cs: &mut Cs, it: &mut Interp, st: &mut Stats) -> R {
                         _ => pick(cs, &p.module_level),
                     };
                     it.call(cs, mm)?;
-                }
-                // calls that are REJECTED (nothing selected): a complete history may contain
-                // them; they must leave the ids and the module alone
-                if it.selection().0.is_none() && cs.below(8) == 0 {
-                    let mm = match cs.below(4) {
-                        0 => pick(cs, &p.term),
-                        1 => method("end_function"),
-                        2 => method("function_parameter"),
-                        _ => pick(cs, &p.block),
-                    };
-                    it.call(cs, mm)?;
-                    rejected += 1;
                 }
             }
             Some(f) => {
